@@ -112,7 +112,7 @@ func keysOf(m map[string]bool) []string {
 }
 
 func c16StoredValues(r *Run) {
-	const rule = "C16-R2-stored-values-clamped"
+	rule := r.aliased("C16-R2-stored-values-clamped")
 	w := r.W
 	clampFns := map[*ssa.Function]bool{w.Fn("secs2", "clampInt64"): true, w.Fn("secs2", "clampUint64"): true, w.Fn("secs2", "clampF4"): true}
 	isClamp := func(v ssa.Value) bool {
@@ -179,8 +179,34 @@ func c16StoredValues(r *Run) {
 					srcT := x.X.Type()
 					// widening from a narrower numeric type cannot leave the 64-bit element's range; for F4
 					// the narrower types are float32 and the integers (|int| ≤ 2^63 < MaxFloat32)
-					if typeBits(srcT) > 0 && typeBits(srcT) < 64 {
+					if typ == "FloatItem" && typeBits(srcT) > 0 && typeBits(srcT) < 64 {
 						return true, "widening of a narrower type"
+					}
+					if typ != "FloatItem" && isIntType(srcT) && typeBits(srcT) > 0 {
+						// an integer stored without a clamp must fit the narrowest item this code path can be
+						// building: width 1 unless the path has decided byteSize == k. A signed source never
+						// fits an unsigned item (negative values need their own guard).
+						k := int64(1)
+						for _, f := range getFacts()[b] {
+							if bo, ok := f.Cond.(*ssa.BinOp); ok && bo.Op == token.EQL && f.Val && strings.HasSuffix(render(bo.X), ".byteSize") {
+								if kk, isK := constInt(bo.Y); isK && kk > k {
+									k = kk
+								}
+							}
+						}
+						sb := int64(typeBits(srcT))
+						fits := false
+						switch {
+						case typ == "IntItem" && !isUnsigned(srcT):
+							fits = sb <= 8*k
+						case typ == "IntItem" && isUnsigned(srcT):
+							fits = sb < 8*k
+						case typ == "UintItem" && isUnsigned(srcT):
+							fits = sb <= 8*k
+						}
+						if fits {
+							return true, "widening of a type that fits the narrowest item width on this path"
+						}
 					}
 					if b, ok := srcT.Underlying().(*types.Basic); ok && b.Kind() == types.Float32 {
 						return true, "widening of float32"
